@@ -27,7 +27,7 @@ RefInit(e) ==
    done |-> FALSE, signalled |-> FALSE, tSig |-> 0, tLastIn |-> 0, tFirstByte |-> -1, tShut |-> -1, tIdle |-> 0,
    lastEnded |-> [status |-> 0, m |-> "", total |-> 0, bodiless |-> FALSE], stalled |-> FALSE, wroteAny |-> FALSE,
    maxHeld |-> 0, tHead1 |-> -1, kaMayHaveFired |-> FALSE, anyCut |-> FALSE, doneErr |-> FALSE, tFinal |-> -1, sigTok |-> 0, t408 |-> -1, wpend |-> FALSE,
-   mem0 |-> -1, tAct |-> 0, unlimited |-> (e.sock.budget < 0)]
+   mem0 |-> -1, tAct |-> 0, tEof |-> -1, tAns |-> 0, unlimited |-> (e.sock.budget < 0)]
 
 NReq(rs) == Len(rs.gt)
 Faulted(rs) == rs.rstFed \/ (rs.eofFed /\ ~rs.cfg.half_closed)
@@ -93,7 +93,8 @@ OnResp(rs, e) ==
           "C01/Resp/4xx-without-malformed-input")
       ELSE IF e.status = 408 THEN
          E({"C06"}, rs.cfg.head_ms > 0 /\ rs.called = 0 /\ e.t + LAG >= rs.cfg.head_ms
-                    /\ (NReq(rs) = 0 \/ rs.fed < rs.gt[1].headlen \/ rs.tHead1 + LAG > rs.cfg.head_ms),
+                    \* (a connection that stopped reading because of the graceful-shutdown signal may still get the 408)
+                    /\ (NReq(rs) = 0 \/ rs.fed < rs.gt[1].headlen \/ rs.tHead1 + LAG > rs.cfg.head_ms \/ rs.signalled),
            [base EXCEPT !.cur = cur, !.errResp = TRUE], "C06/Resp/408-not-justified")
       ELSE E({"C02"}, FALSE, [base EXCEPT !.cur = cur], "C02/Resp/unattributed-response")
    ELSE
@@ -131,9 +132,9 @@ Closed(rs, cur, e) ==
   LET s1 == [rs EXCEPT !.answered = @ + 1, !.cur = NoCur,
                        !.lastEnded = [status |-> cur.status, m |-> (IF cur.i >= 1 /\ cur.i <= NReq(rs) THEN rs.gt[cur.i].m ELSE ""),
                                       total |-> (IF cur.i >= 1 /\ cur.i <= NReq(rs) THEN rs.pf[cur.i].total ELSE 0), bodiless |-> cur.bodiless]]
-  IN IF cur.closing THEN [s1 EXCEPT !.final = TRUE, !.tFinal = e.t, !.tAct = e.t,
+  IN IF cur.closing THEN [s1 EXCEPT !.final = TRUE, !.tFinal = e.t, !.tAct = e.t, !.tAns = e.t,
                                     !.finalWhy = (IF cur.standalone THEN "error-response" ELSE "close-response")]
-     ELSE [s1 EXCEPT !.tAct = e.t]
+     ELSE [s1 EXCEPT !.tAct = e.t, !.tAns = e.t]
 
 OnRespEnd(rs, e) ==
   LET cur == rs.cur IN
@@ -178,14 +179,23 @@ Idle(rs) == /\ rs.called = rs.answered /\ rs.cur.k = 0 /\ ~rs.final /\ ~rs.done 
             /\ rs.fed = rs.gt[rs.called].end /\ ~rs.eofFed /\ ~rs.rstFed /\ ~rs.signalled /\ rs.rej.at = 0
 CanFinish(rs) == rs.sock.shutdown = "ready" /\ rs.unlimited
 HeadLate(rs, t) == rs.cfg.head_ms > 0 /\ rs.tHead1 < 0 /\ rs.called = 0 /\ t >= rs.cfg.head_ms + LAG
+\* lingering close (reading and discarding the rest of an unread body) is a phase of its own before the shutdown proper,
+\* each bounded by the disconnect timeout
+LingerPossible(rs) == \E i \in 1..rs.called : i <= NReq(rs) /\ rs.gt[i].blen > 0 /\ rs.pf[i].read # "all"
+DiscBound(rs) == (IF LingerPossible(rs) THEN 2 ELSE 1) * rs.cfg.disc_ms + LAG
+ShutLate(rs, t) ==
+  /\ rs.cfg.disc_ms > 0 /\ ~rs.done
+  /\ \/ (rs.final /\ t - rs.tFinal > DiscBound(rs))
+     \/ (Idle(rs) /\ rs.cfg.ka_ms > 0 /\ t - rs.tAct > rs.cfg.ka_ms + DiscBound(rs))
+     \/ (HeadLate(rs, t) /\ t > rs.cfg.head_ms + DiscBound(rs))
+     \* the peer half-closed and nothing is in flight: the connection is shut down
+     \/ (rs.eofFed /\ rs.called = rs.answered /\ rs.cur.k = 0 /\ rs.unlimited /\ rs.rej.at = 0
+         /\ t - (IF rs.tEof > rs.tAns THEN rs.tEof ELSE rs.tAns) > DiscBound(rs))
 OnTime(rs, t) ==
   \* evaluated whenever virtual time is observed (Tick and Done events)
   E({"C06"}, ~(HeadLate(rs, t) /\ ~rs.errResp /\ ~rs.done /\ rs.unlimited /\ rs.rej.at = 0),
    E({"C06"}, ~(Idle(rs) /\ rs.cfg.ka_ms > 0 /\ CanFinish(rs) /\ t - rs.tAct >= rs.cfg.ka_ms + LAG),
-    E({"C06"}, ~(rs.cfg.disc_ms > 0 /\ ~rs.done /\
-                 (\/ (rs.final /\ t - rs.tFinal > 2 * rs.cfg.disc_ms + 2 * LAG)
-                  \/ (Idle(rs) /\ rs.cfg.ka_ms > 0 /\ t - rs.tAct > rs.cfg.ka_ms + 2 * rs.cfg.disc_ms + 2 * LAG)
-                  \/ (HeadLate(rs, t) /\ t > rs.cfg.head_ms + 2 * rs.cfg.disc_ms + 2 * LAG))),
+    E({"C06"}, ~ShutLate(rs, t),
       rs,
       "C06/Shutdown/outlives-disconnect-timeout"),
     "C06/KeepAlive/idle-connection-not-closed"),
@@ -219,12 +229,14 @@ ErrEndJustified(rs, e) ==
 
 OnDone(rs, e) ==
   LET s == [rs EXCEPT !.done = TRUE, !.doneErr = (e.res = "err")] IN
+  E({"C06"}, ~ShutLate(rs, e.t),
   E({"C06"}, ~(Idle(rs) /\ rs.cfg.ka_ms > 0 /\ e.res = "ok" /\ e.t - rs.tAct + LAG < rs.cfg.ka_ms),
   E({"C04"}, e.res = "ok" \/ ErrEndJustified(rs, e),
    E({"C02"}, rs.called <= rs.answered + (IF rs.cur.k # 0 THEN 1 ELSE 0) \/ Faulted(rs) \/ e.res = "err", s,
      IF ChunkDrop(rs) THEN "C02/Done/unanswered-because-dropped-on-malformed-chunk" ELSE "C02/Done/dispatched-request-never-answered"),
    "C04/Done/error-end-without-cause/" \o e.kind),
-   "C06/KeepAlive/closed-before-timeout")
+   "C06/KeepAlive/closed-before-timeout"),
+   "C06/Shutdown/outlives-disconnect-timeout")
 
 OnEnd(rs, e) ==
   IF ~rs.epi THEN rs
@@ -241,7 +253,7 @@ OnEnd(rs, e) ==
 RefStep0(rs, e) ==
   CASE e.ev = "Feed"     -> [rs EXCEPT !.fed = @ + e.n, !.tLastIn = IF e.n > 0 THEN e.t ELSE @, !.tAct = e.t,
                                        !.tHead1 = IF NReq(rs) > 0 /\ @ < 0 /\ rs.fed + e.n >= rs.gt[1].headlen THEN e.t ELSE @]
-    [] e.ev = "Eof"      -> [rs EXCEPT !.eofFed = TRUE, !.tAct = e.t]
+    [] e.ev = "Eof"      -> [rs EXCEPT !.eofFed = TRUE, !.tAct = e.t, !.tEof = IF @ < 0 THEN e.t ELSE @]
     [] e.ev = "Rst"      -> [rs EXCEPT !.rstFed = TRUE]
     [] e.ev = "Signal"   -> [rs EXCEPT !.signalled = TRUE, !.tSig = e.t, !.tAct = e.t]
     [] e.ev = "Call"     -> OnCall(rs, e)
